@@ -708,6 +708,9 @@ func (c *Client) readResponseTagged(tag, typ string) (startTLS *startTLSCommand,
 			if !c.dec.ExpectSP() || !c.dec.ExpectNumber(&uidValidity) || !c.dec.ExpectSP() || !c.dec.ExpectUID(&uid) {
 				return nil, fmt.Errorf("in resp-code-apnd: %v", c.dec.Err())
 			}
+			if uid == 0 {
+				return nil, fmt.Errorf("in resp-code-apnd: UID must be non-zero")
+			}
 			if cmd, ok := cmd.(*AppendCommand); ok {
 				cmd.data.UID = uid
 				cmd.data.UIDValidity = uidValidity
@@ -937,11 +940,17 @@ func (c *Client) readResponseData(typ string) error {
 		}
 		return c.handleStatus()
 	case "FETCH":
+		if num == 0 {
+			return fmt.Errorf("in message-data: sequence number must be non-zero")
+		}
 		if !c.dec.ExpectSP() {
 			return c.dec.Err()
 		}
 		return c.handleFetch(num)
 	case "EXPUNGE":
+		if num == 0 {
+			return fmt.Errorf("in message-data: sequence number must be non-zero")
+		}
 		return c.handleExpunge(num)
 	case "SEARCH":
 		return c.handleSearch()
